@@ -10,7 +10,7 @@ use proptest::prelude::*;
 use serde::{Deserialize, Serialize};
 use serde_json::json;
 
-pub const RULE: &str = "generated: HISTORIES of 1-40 validations against ONE scripted provider instance (a hand-written tower::Service logging every poll_ready / call / future poll; the harness owns the executor, so readiness and pending states are scheduled by the generator). Each step = (request: valid or carrying 1-2 defects at any rule, on either carrier) x (poll_ready: Pending k1 times then Ready, or Ready at once, or Err; call future: Pending k2 times then Ok(key) | Err(each SignatureError kind) | Err(foreign error)). Invariants after every step: call count 0 or 1 and equal to the model's (0 whenever the request fails any of rules 1-13 or readiness fails); call never happens before poll_ready returned Ready in the same validation; arguments equal the model's (access key, token, UTC date, server region, service); a provider SignatureError comes back with the same kind and message, a foreign error as InternalServiceError/500; no Err / pending / not-ready path yields Ok; the outcome of step i equals the outcome of the same step run alone on a fresh provider (no state leaks). Non-trivial: history containing a defective request, a delayed readiness or answer, and an error answer; distinct by history digest.";
+pub const RULE: &str = "generated: HISTORIES of 1-40 validations against ONE scripted provider instance (a hand-written tower::Service logging every poll_ready / call / future poll; the harness owns the executor, so readiness and pending states are scheduled by the generator). Each step = (request: valid or carrying 1-2 defects at any rule, on either carrier) x (poll_ready: Pending k1 times then Ready, or Ready at once, or Err; call future: Pending k2 times then Ok(key) | Err(each SignatureError kind) | Err(foreign error)). Invariants after every step: call count 0 or 1 and equal to the model's (0 whenever the request fails any of rules 1-13 or readiness fails); call never happens before poll_ready returned Ready in the same validation; arguments equal the model's (access key, token, UTC date, server region, service); a provider SignatureError comes back with the same kind and message, a foreign error as InternalServiceError/500; no Err / pending / not-ready path yields Ok; the outcome of step i equals the outcome of the same step run alone on a fresh provider (no state leaks). A step may also be ABANDONED: its future is polled k<8 times and dropped; the provider contract must hold for what it saw and every later step must be unaffected. Non-trivial: history containing a defective request, a delayed readiness or answer, and an error answer; distinct by history digest.";
 
 #[derive(Clone, Debug, Serialize, Deserialize)]
 pub struct Step {
@@ -21,6 +21,9 @@ pub struct Step {
     /// 0 = Lookup; 1..=12 = SignatureError kind; 13 = foreign
     pub answer: u8,
     pub wrong_secret: bool,
+    /// the caller gives up: the validation future is polled this many times at most and then dropped
+    #[serde(default)]
+    pub abandon_after: Option<u8>,
 }
 
 #[derive(Clone, Debug, Serialize, Deserialize)]
@@ -38,8 +41,9 @@ pub fn step() -> BoxedStrategy<Step> {
         prop_oneof![3 => Just(0u8), 2 => 1u8..6],
         prop_oneof![5 => Just(0u8), 3 => 1u8..14],
         prop_oneof![6 => Just(false), 1 => Just(true)],
+        prop_oneof![9 => Just(None), 1 => (0u8..8).prop_map(Some)],
     )
-        .prop_map(|(q, sel, variant, ready_pending, ready_err, call_pending, answer, wrong_secret)| {
+        .prop_map(|(q, sel, variant, ready_pending, ready_err, call_pending, answer, wrong_secret, abandon_after)| {
             let mut d: Vec<Defect> = sel
                 .into_iter()
                 .map(|x| ALL_DEFECTS[pick_idx(x, ALL_DEFECTS.len())])
@@ -48,7 +52,7 @@ pub fn step() -> BoxedStrategy<Step> {
                 .collect();
             d.sort();
             d.dedup();
-            Step { req: DefectCase { query_carrier: q, defects: d, variant }, ready_pending, ready_err, call_pending, answer, wrong_secret }
+            Step { req: DefectCase { query_carrier: q, defects: d, variant }, ready_pending, ready_err, call_pending, answer, wrong_secret, abandon_after }
         })
         .boxed()
 }
@@ -225,8 +229,26 @@ pub fn check_history(h: &History, cc: &mut CaseCtx) -> CheckResult {
         let case = step_case(s);
         let a = analyze(&case);
         prov.set_script(case.prov.clone());
-        let o = exec::run_with_provider(&case.req, &case.cfg, &mut prov);
+        let o = match s.abandon_after {
+            None => exec::run_with_provider(&case.req, &case.cfg, &mut prov),
+            Some(k) => exec::with_poll_budget(k as u32, || exec::run_with_provider(&case.req, &case.cfg, &mut prov)),
+        };
         if let exec::Res::Unrepresentable(_) = o.res {
+            continue;
+        }
+        if let (Some(k), exec::Res::Hang) = (s.abandon_after, &o.res) {
+            // given up after k polls and dropped: no verdict to judge; what the provider saw up to here must still
+            // obey the contract, and the validations that follow must be unaffected (checked below, step by step)
+            cc.class("has-abandoned-validation");
+            if o.calls() > 1 {
+                return Err(Failure::new("provider-called-twice", format!("step {} (abandoned after {} polls): provider called {} times", i, k, o.calls())));
+            }
+            if o.prov_log.iter().any(|e| matches!(e, ProvEvent::Call { after_ready: false, .. })) {
+                return Err(Failure::new("provider-called-before-ready", format!("step {} (abandoned after {} polls): call() without a preceding Ready", i, k)));
+            }
+            if a.verdict().is_specified() && a.verdict().rank() < R_PROVIDER && !o.prov_log.is_empty() {
+                return Err(Failure::new("provider-touched-by-defective-request", format!("step {} (abandoned after {} polls): the request fails rule {} yet the provider saw {:?}", i, k, a.verdict().rank(), o.prov_log)));
+            }
             continue;
         }
         let ctxt = |m: String| format!("step {} of {} ({:?}, ready_pending={} ready_err={:?} call_pending={} answer={}): {}", i, h.steps.len(), s.req.defects, s.ready_pending, s.ready_err, s.call_pending, s.answer, m);
